@@ -277,12 +277,16 @@ fn family_chunk(family: u64, offset: u64, buf: &mut [u8], x: &mut u64) {
             }
         }
         2 => {
-            for chunk in buf.chunks_mut(8) {
-                *x ^= *x << 13;
-                *x ^= *x >> 7;
-                *x ^= *x << 17;
-                let v = x.to_le_bytes();
-                chunk.copy_from_slice(&v[..chunk.len()]);
+            // pseudo-random, but a pure function of the absolute offset, so that the stream does
+            // not depend on how it is cut into chunks
+            let _ = x;
+            for (i, b) in buf.iter_mut().enumerate() {
+                let off = offset + i as u64;
+                let mut z = (off / 8).wrapping_mul(0x9e3779b97f4a7c15) ^ 0x2545f4914f6cdd1d;
+                z = (z ^ (z >> 30)).wrapping_mul(0xbf58476d1ce4e5b9);
+                z = (z ^ (z >> 27)).wrapping_mul(0x94d049bb133111eb);
+                z ^= z >> 31;
+                *b = (z >> (8 * (off % 8))) as u8;
             }
         }
         _ => {
@@ -327,7 +331,7 @@ fn pump<S: Sink>(sink: &mut S, family: u64, total: u64, chunk: usize) {
 pub fn run_real(ctx: &Ctx, rep: &mut Report) {
     rep.rule = "real streams of 4 224 281 208 bytes (three content families: 2-periodic, 251-periodic, xorshift) fed in large chunks to all five generators and to the reference model, then single bytes across the 4 224 281 216-byte mark and (after a real 70 MB piece) across 2^32, comparing processed_len, the TooLargeInput gate and finalize results at every step; one case per (family, variant); all are non-trivial".into();
     let family = ctx.param_u64("family", ctx.shard % 3);
-    let chunk = [1 << 20, (1 << 30) + 12345, 65536 + 7][(family % 3) as usize];
+    let chunk = [1 << 20, (1 << 30) + 12345, 65536 + 7][(family % 3) as usize]; // deliberately odd sizes
     let head = MAX_DATA_LENGTH - 8 - (8 - (MAX_DATA_LENGTH % 8)) % 8; // multiple of 8 for the word generator
     let head = head - head % 8;
     let mut gs = crate::variant::VShort::new_gen();
